@@ -106,8 +106,9 @@ class VttCue:
 
   def normalize_eol(self):
     """Remove line breaks at the beginning and end of the paragraph, and replace
-    line break sequences with a single line break"""
-    self._text = VttCue._EOL_SEQ_RE.sub("\n", self._text).strip("\n\r")
+    line break sequences with a single line break. Lines that contain only white space
+    are removed too, since many WebVTT readers, including ttconv's, take them for the end of the cue."""
+    self._text = "\n".join(line for line in self._text.split("\n") if line.strip() != "")
 
   def append_text(self, text: str):
     """Appends text to the paragraph"""
